@@ -391,15 +391,20 @@ def run_impl(fx, rng, nops, script=None):
         elif what[0] == 'acquire':
             kind = what[1] if len(what) > 1 else rng.choice(kinds)
             exc = None
+            # half of the acquisitions do not touch the indexer at all before later select() calls (a lazily built
+            # indexer must not pick up later selections); the index generator then takes the data set's shape
+            lazy = (what[2] if len(what) > 2 else rng.random() < 0.5)
             try:
                 with warnings.catch_warnings():
                     warnings.simplefilter('ignore')
                     x = getattr(d, kind)
-                    shape = canon_shape(x, kind)
+                    dshape = [int(v) for v in d.shape]
+                    shape = (dshape[:1] if kind == 'timestamps' else dshape) if lazy else canon_shape(x, kind)
             except Exception as e:      # noqa: BLE001
                 exc, x, shape = e, None, None
             ops.append([1, KIND_ID[kind]])
-            log.append(dict(op='acquire', kind=kind, shape=shape, exc=repr(exc) if exc else None, desc=['acquire', kind]))
+            log.append(dict(op='acquire', kind=kind, shape=shape, exc=repr(exc) if exc else None, lazy=lazy,
+                            desc=['acquire', kind] + (['untouched'] if lazy else [])))
             acquired.append((kind, x, shape, nsel))
             if exc is not None:
                 break
@@ -489,7 +494,10 @@ def compare_history(ctx, fx, ops, log, mouts, hid, note=True):
                 ctx.disagree('fmt=%s;op=observe;what=raises' % fmt, case(n), e.get('exc'), 'ok',
                              'reading the public attributes / timestamps / sensors raised')
                 return
-            mshape, mdumps, mchans, mcps, mts, mlens, mfreq, msens = mo
+            mshape, mdumps, mchans, mcps, (model_ts, mts), mlens, mfreq, msens = mo
+            if model_ts != mts:
+                ctx.disagree('fmt=%s;attr=timestamps;what=model_vs_spec' % fmt, case(n), model_ts[:4], mts[:4],
+                             'timestamp conversion found in the source differs from the documented one', kind='tie')
             mts = [unq(p) for p in mts]
             if tsmap is None:
                 tsmap = mts            # conv_t of every stored timestamp (first observation: everything selected)
@@ -530,9 +538,11 @@ def compare_history(ctx, fx, ops, log, mouts, hid, note=True):
                 ctx.disagree('fmt=%s;kind=%s;what=model_vs_spec_acquire' % (fmt, e['kind']), case(n), [adv, cv],
                              [spec_shape, spec_cv], 'model indexer differs from the spec', kind='tie')
             if e['shape'] != spec_shape:
-                ctx.disagree('fmt=%s;kind=%s;what=advertised_shape' % (fmt, e['kind']), case(n), e['shape'], spec_shape,
-                             'shape advertised by the indexer differs from (len dumps, len channels, len corr_products)',
-                             spec=spec_shape)
+                ctx.disagree('fmt=%s;kind=%s;what=%s' % (fmt, e['kind'], 'dataset_shape' if e['lazy'] else 'advertised_shape'),
+                             case(n), e['shape'], spec_shape,
+                             'shape advertised by the %s differs from (len dumps, len channels, len corr_products)'
+                             % ('data set' if e['lazy'] else 'indexer'), spec=spec_shape)
+            ctx.count('acquire_untouched' if e['lazy'] else 'acquire_shape_read')
             ctx.count('acquire=' + e['kind'])
             if note:
                 ctx.note_case((hkey, n), nontrivial=False)
